@@ -126,6 +126,8 @@ type Config struct {
 	// > @3@4@5@6
 	// >
 	// > Time interval after which unused limiters are removed.
+	// > Values less than `bucket_interval * buckets_count` are raised to it: a limiter must not be removed
+	// > while its buckets are still retained, otherwise the events of an exhausted bucket pass again.
 	LimiterExpiration  cfg.Duration `json:"limiter_expiration" parse:"duration" default:"30m"` // *
 	LimiterExpiration_ time.Duration
 
@@ -416,9 +418,20 @@ func (p *Plugin) Start(config pipeline.AnyConfig, params *pipeline.ActionPluginP
 
 			redisOpts = p.config.RedisBackendCfg.toOptions()
 		}
+		// A limiter must live at least as long as its buckets are retained. If it is removed earlier,
+		// a fresh limiter with empty buckets is created for the same key and the events
+		// of an already exhausted bucket pass again.
+		limitersExpiration := p.config.LimiterExpiration_
+		if bucketsWindow := p.config.BucketInterval_ * time.Duration(p.config.BucketsCount); limitersExpiration < bucketsWindow {
+			p.logger.Infof(
+				"limiter_expiration=%s is less than bucket_interval*buckets_count=%s, limiters will be removed after %s",
+				limitersExpiration, bucketsWindow, bucketsWindow,
+			)
+			limitersExpiration = bucketsWindow
+		}
 		lmCfg := limitersMapConfig{
 			ctx:                p.ctx,
-			limitersExpiration: p.config.LimiterExpiration_,
+			limitersExpiration: limitersExpiration,
 			isStrict:           params.PipelineSettings.IsStrict,
 			logger:             p.logger,
 			limiterCfg: &limiterConfig{
